@@ -565,13 +565,15 @@ def gen_cases(tier, rng):
     import corr.C03 as C03
     for i in range(60 if quick else 500):
         core = rng.choice(cores)
-        cases.append({"prop": PROP, "core": core, "mode": "o", "ops": C03._history(rng, core, "o"), "shift": 0, "range": False})
+        cases.append({"prop": PROP, "core": core, "mode": "o", "ops": C03._history(rng, core, "o"), "shift": 0, "range": False, "other": rng.random() < 0.3})
     table = M._opaque_table()
     per = 5 if quick else 20
     for name, (mode, _) in sorted(table.items()):
         for j in range(per):
             cases.append({"prop": PROP, "core": "opaque:" + name, "mode": mode, "ops": _history(rng, "opaque:" + name, mode),
                           "shift": 0, "range": rng.random() < 0.5})
+    for cc in cases:
+        cc.setdefault("other", rng.random() < 0.3)      # a second object of the same kind is used in between
     return cases
 
 
